@@ -362,10 +362,21 @@ class Sut(object):
                 p = op["prefix"]
                 src = m.we.get(p)
                 dst = m.we.get(op["of"])
+                mv = t.move_prefix_to_webentity_from_webentity if op.get("alias") else t.move_prefix_to_webentity
+                if src is None and dst is not None and op.get("fresh"):
+                    try:
+                        mv(self.W(p), self.idmap[dst])
+                    except TraphException:
+                        # nothing states that such a move is accepted: a refusal ends the case without a verdict
+                        self.stats["moves_of_unattached_prefix_refused"] += 1
+                        raise Aborted()
+                    m.ins(p)
+                    m.we[p] = dst
+                    self.stats["moves_of_unattached_prefix"] += 1
+                    return out
                 if src is None or dst is None:
                     self.stats["ops_skipped"] += 1
                     return out
-                mv = t.move_prefix_to_webentity_from_webentity if op.get("alias") else t.move_prefix_to_webentity
                 if op.get("with_src", True):
                     mv(self.W(p), self.idmap[dst], self.idmap[src])
                 else:
@@ -429,7 +440,7 @@ class Sut(object):
                 t.remove_webentity_creation_rule(self.W(op["anchor"]))
                 m.remove_rule(op["anchor"])
             elif k == "reopen":
-                self.reopen()
+                self.reopen(out)
             elif k == "touch":
                 l = op["lru"]
                 how = op.get("how", 0)
@@ -631,18 +642,37 @@ class Sut(object):
         self._check_new_pages(r, 0, out, "rule")
         self._bind_report(r, out, "rule")
 
-    def reopen(self):
+    def reopen(self, out=None):
+        out = [] if out is None else out
         t, m = self.t, self.m
         t.close()
         self.closed_sizes = (os.path.getsize(os.path.join(self.folder, "lru_trie.dat")), os.path.getsize(os.path.join(self.folder, "link_store.dat")))
         rules = {a: m.rules[a].pattern for a in sorted(m.flags)}
+        names = sorted(rules)
+        late_names = set(names[1::2]) if self.local["reopens"] % 2 == 1 else set()
+        early = {a: rules[a] for a in names if a not in late_names}
+        late = {a: rules[a] for a in names if a in late_names}
         self.t = Traph(
             folder=self.folder,
             overwrite=False,
             encoding=self.cfg.get("encoding", "utf-8"),
             default_webentity_creation_rule=m.default_pattern,
-            webentity_creation_rules=self.rule_keys(rules),
+            webentity_creation_rules=self.rule_keys(early),
         )
+        # the other way a client re-registers the rules of an existing index: the public
+        # write_in_trie=False form, which must only fill the in-memory table (no write, no webentity)
+        for a in sorted(late):
+            before = M.store_bytes(self.t) if len(late) <= 4 else None
+            r = self.t.add_webentity_creation_rule(self.W(a), late[a], write_in_trie=False)
+            self.stats["late_rule_registrations"] += 1
+            created = getattr(r, "created_webentities", None)
+            if created:
+                out.append(D(["C06"], "rule-registration-without-trie-write-created-webentities",
+                             anchor=a, created=repr(created)[:200]))
+                raise Aborted()
+            if before is not None and M.store_bytes(self.t) != before:
+                out.append(D(["C06", "C11"], "rule-registration-without-trie-write-changed-the-stores", anchor=a))
+                raise Aborted()
         m.rules = {a: m.rules[a] for a in m.flags}
         self.stats["reopens"] += 1
         self.local["reopens"] += 1
